@@ -130,6 +130,9 @@ pub struct Finding {
     pub status: String,
     #[serde(default)]
     pub commit: Option<String>,
+    /// for `fixed` entries: the literal record line "fixed: property=<id> <commit> <what failed>"
+    #[serde(default)]
+    pub line: Option<String>,
     pub what: String,
 }
 
